@@ -44,3 +44,22 @@ def batch_obligations(prefix, fam, harness, defines, variant="dbg", truncations=
                         desc=desc, bounds="%d skeletons, <= %d bytes each%s; all data bytes symbolic" % (len(b), maxn, ", every truncation offset" if truncations else ""),
                         sample={"skeletons": [{"heads": s["name"], "bytes": " ".join("??" if x < 0 else "%02x" % x for x in s["bytes"]), "expected": repr(s["outcome"])} for s in b[:3]]}))
     return obls
+
+
+def tree_family(tier, limit=2048):
+    """Trees of the C03 space: every accepted skeleton (decoder-obtained) + the construction programs."""
+    fam = [s for s in family(tier, limit) if s["outcome"].ok]
+    return fam + sk.construction_family(tier)
+
+
+def tree_obligations(prefix, fam, defines, variant="dbg", weight_cap=120, max_cases=16, timeout=600, leak=True, funcs=None, desc="", ptrcheck=False, flags=None, mem_gb=8, extra_unwind=6):
+    obls = []
+    for bi, b in enumerate(batches(fam, weight_cap, max_cases, False)):
+        maxn = max(len(s["bytes"]) for s in b)
+        maxnodes = max(len(s["outcome"].nodes) for s in b)
+        src = sk.c_trees(b)
+        obls.append(Obl("%s_batch%03d_%s" % (prefix, bi, variant), "h_ser.c", defines, variant=variant, unwind=max(maxn + 9 * maxnodes + 8, 40),
+                        gen_src={"trees.h": src}, timeout=timeout, leak=leak, funcs=funcs or [], mem_gb=mem_gb, flags=flags or [], ptrcheck=ptrcheck,
+                        desc=desc, bounds="%d trees (<= %d nodes each); all scalar values and payload bytes symbolic" % (len(b), maxnodes),
+                        sample={"trees": [{"name": s["name"], "nodes": len(s["outcome"].nodes), "built_by": "construction API" if s.get("built") else "cbor_load"} for s in b[:4]]}))
+    return obls
